@@ -59,6 +59,18 @@ M = [
   "numbers with a leading dot no longer parse"),
  ("c20_hardcoded_lf", "C20", ["C20"], P + "StreamProcessor.py", "            if (lines):\n                return self.eol.join(lines) + self.eol", "            if (lines):\n                return \"\\n\".join(lines) + \"\\n\"",
   "LF hard-coded when a line is rewritten: wrong in CRLF files"),
+ ("g01_extended_codes_module_scope", "C06", ["C06", "C10"], P + "__init__.py",
+  ["LOG_MODE_BOTH = \"both\"\n", "        extendedExcludeGcodes = {}\n        for val in self._settings.get"],
+  ["LOG_MODE_BOTH = \"both\"\n\n# table of extended G-codes, rebuilt on every settings update\n_EXTENDED_GCODES = {}\n", "        extendedExcludeGcodes = _EXTENDED_GCODES\n        for val in self._settings.get"],
+  "the local table built in _handleSettingsUpdated hoisted to module scope and never cleared: codes removed from the settings keep being withheld (state lives outside every instance, shared by every plugin object in the process)"),
+ ("g02_script_list_default_argument", "C06", ["C06", "C10"], P + "__init__.py",
+  ["    def _splitGcodeScript(self, gcodeString):", "        gcodeCommands = []\n\n        for gcode in self.gcodeHandlers"],
+  ["    def _splitGcodeScript(self, gcodeString, gcodeCommands=[]):", "        for gcode in self.gcodeHandlers"],
+  "script splitter collects into a mutable default argument: enter and exit script become one shared, growing list"),
+ ("g03_pending_commands_class_attribute", "C20", ["C20", "C06", "C10"], P + "ExcludeRegionState.py",
+  ["    def __init__(self, logger):", "        self.pendingCommands = OrderedDict()\n"],
+  ["    pendingCommands = OrderedDict()\n\n    def __init__(self, logger):", "        self.pendingCommands.clear()\n"],
+  "deferred commands kept in a class attribute (cleared, never re-created): shared by the live state and the stream processor's deep copy, and by every plugin object"),
  ("c20_shallow_copy", "C20", ["C20"], P + "StreamProcessor.py", "            copy.deepcopy(gcodeHandlers.state),", "            copy.copy(gcodeHandlers.state),",
   "shallow copy: the live position objects are shared with the stream processor"),
 ]
@@ -72,7 +84,8 @@ def main():
         for name, prop, checks, path, old, new, what in M:
             subprocess.check_call(["git", "-C", wt, "checkout", "-q", "--", "."])
             r = subprocess.run(["python3", os.path.join(VERIF, "tools", "crlf_edit.py"), os.path.join(wt, path)],
-                               input=json.dumps([[old, new]]), universal_newlines=True, stderr=subprocess.PIPE)
+                               input=json.dumps([[old, new]] if isinstance(old, str) else [list(x) for x in zip(old, new)]),
+                               universal_newlines=True, stderr=subprocess.PIPE)
             if r.returncode:
                 print("FAILED", name, r.stderr[:300]); continue
             d = os.path.join(VERIF, "mutants", name); os.makedirs(d, exist_ok=True)
